@@ -10,9 +10,9 @@ def sh(cmd, cwd=None, timeout=3000):
 def confirm(mdir):
     mid = os.path.basename(mdir.rstrip("/"))
     prop = mid.split("_")[0]
-    wt = "/tmp/wt_%s" % prop
+    wt = "%s%s" % (os.environ.get("WT_PREFIX", "/tmp/wt_"), prop)
     demo = open(os.path.join(mdir, "demo.rs")).read()
-    m = re.search(r"/tmp/wt_\w+/(\S+\.rs)", demo)
+    m = re.search(r"/tmp/wt3?_\w+/(\S+\.rs)", demo)
     rel = m.group(1) if m else "miniz_oxide/tests/%s_demo.rs" % mid.lower()
     name = os.path.basename(rel)[:-3]
     pkg = "miniz_oxide" if rel.startswith("miniz_oxide/") else "miniz_oxide_c_api"
